@@ -22,7 +22,7 @@ def classify(known, c, r):
     vd = (known // 100) % 10     # the same with result lists checked only where the column is itself a reference
     multi = (known // 1000) % 10
     if "panic" in r:
-        return "reference_makes_sqlc_panic"
+        return None
     if k in CLASSES:
         return CLASSES[k]
     if v != 0 and vd == 0 and r.get("ok"):
